@@ -626,15 +626,12 @@ type c13ctx struct {
 	seenErr  map[string]bool
 }
 
-// a rune list as `(hx "...")`: six hexadecimal digits per rune (decoded by Corr/CorrC13.v)
+// a rune list as `(hx "...")`: the hexadecimal digits of the UTF-8 bytes (decoded by Corr/CorrC13.v)
 func c13runes(s string) string {
-	var b strings.Builder
-	b.WriteString("(hx \"")
-	for _, r := range s {
-		fmt.Fprintf(&b, "%06x", r)
+	if !utf8.ValidString(s) {
+		panic("c13runes: invalid UTF-8")
 	}
-	b.WriteString("\")")
-	return b.String()
+	return fmt.Sprintf("(hx \"%x\")", s)
 }
 
 func (c *c13ctx) replayArg(k c13case) string {
@@ -741,12 +738,12 @@ func (c *c13ctx) judgeRender(k c13case, fe *file.Error) {
 		rep.fail(Failure{Key: "C13-format", What: "Error() is not message (line:column+1) snippet", Input: k, Want: fmt.Sprintf("%q", wantText), Got: fmt.Sprintf("%q", fe.Error()), Replay: c.replayArg(k)})
 	}
 	// Coq case: the model renders from (source, line, column) alone
-	if utf8.ValidString(k.Src) && utf8.RuneCountInString(k.Src) <= 160 {
+	if utf8.ValidString(k.Src) && utf8.ValidString(fe.Error()) && utf8.RuneCountInString(k.Src) <= 120 {
 		key := fmt.Sprintf("%s|%d|%d", k.Src, fe.Line, fe.Column)
 		if !c.seenErr[key] {
 			c.seenErr[key] = true
-			suffix := strings.TrimPrefix(fe.Error(), fe.Message)
-			c.errCases = append(c.errCases, fmt.Sprintf("CErr %s (%d) (%d) %s %s", c13runes(k.Src), fe.Line, fe.Column, c13runes(fe.Snippet), c13runes(suffix)))
+			position := strings.TrimSuffix(strings.TrimPrefix(fe.Error(), fe.Message), fe.Snippet)
+			c.errCases = append(c.errCases, fmt.Sprintf("CErr %s (%d) (%d) %s %s", c13runes(k.Src), fe.Line, fe.Column, c13runes(fe.Snippet), c13runes(position)))
 		}
 	}
 }
@@ -1388,7 +1385,10 @@ func (c *c13ctx) runFaults(n int) {
 				c.rep.hist("run-time program rejected at compile time")
 				continue
 			}
-			r := runProgram(prog, c.env)
+			r, pan := c13safeRun(prog, c.env)
+			if pan != nil {
+				r.err = fmt.Errorf("vm.Run panicked: %v", pan)
+			}
 			if r.err == nil {
 				c.rep.hist("run-time program did not fail")
 				if os.Getenv("C13_DEBUG") != "" {
@@ -1405,6 +1405,47 @@ func (c *c13ctx) runFaults(n int) {
 			}
 		}
 	}
+}
+
+// ---------------------------------------------------------------- panics are failures with an input, never a crash of the harness
+func c13safeSnippet(s *file.Source, line int) (text string, found bool, panicked interface{}) {
+	defer func() {
+		if r := recover(); r != nil {
+			panicked = r
+		}
+	}()
+	text, found = s.Snippet(line)
+	return
+}
+
+func c13safeBind(s *file.Source, line, col int) (e *file.Error, panicked interface{}) {
+	defer func() {
+		if r := recover(); r != nil {
+			panicked = r
+		}
+	}()
+	e = (&file.Error{Location: file.Location{Line: line, Column: col}, Message: "m"}).Bind(s)
+	return
+}
+
+func c13safeRun(p *vm.Program, env interface{}) (r coreRun, panicked interface{}) {
+	defer func() {
+		if x := recover(); x != nil {
+			panicked = x
+		}
+	}()
+	r = runProgram(p, env)
+	return
+}
+
+func c13safeParseCase(src string) (line string, ok bool, panicked interface{}) {
+	defer func() {
+		if x := recover(); x != nil {
+			panicked = x
+		}
+	}()
+	line, ok = c11CoqCase(src)
+	return
 }
 
 // ---------------------------------------------------------------- Source.Snippet directly
@@ -1430,8 +1471,13 @@ func (c *c13ctx) snippets(n int) {
 		s := file.NewSource(src)
 		ls := c13lines(src)
 		for line := -1; line <= len(ls)+2; line++ {
-			got, found := s.Snippet(line)
+			got, found, pan := c13safeSnippet(s, line)
 			c.rep.Evaluations++
+			if pan != nil {
+				c.rep.fail(Failure{Key: "C13-snippet-panic", What: "Source.Snippet panics", Input: map[string]interface{}{"src": src, "line": line},
+					Want: "the line or not found", Got: fmt.Sprint(pan), Replay: c.replayArg(c13case{Stream: "snippet", Src: src, Line: line})})
+				continue
+			}
 			wantFound := line >= 1 && line <= len(ls) && src != ""
 			want := ""
 			if wantFound {
@@ -1449,7 +1495,12 @@ func (c *c13ctx) snippets(n int) {
 		for line := 1; line <= len(ls); line++ {
 			n := utf8.RuneCountInString(ls[line-1])
 			for _, col := range []int{0, 1, n / 2, n, n + 1} {
-				e := (&file.Error{Location: file.Location{Line: line, Column: col}, Message: "m"}).Bind(s)
+				e, pan := c13safeBind(s, line, col)
+				if pan != nil {
+					c.rep.fail(Failure{Key: "C13-snippet-panic", What: "Error.Bind panics", Input: map[string]interface{}{"src": src, "line": line, "col": col},
+						Want: "the rendered line", Got: fmt.Sprint(pan), Replay: c.replayArg(c13case{Stream: "snippet", Src: src, Line: line, Col: col})})
+					continue
+				}
 				want, found := c13expectSnippet(src, line, col)
 				if !found {
 					want = ""
@@ -1462,7 +1513,7 @@ func (c *c13ctx) snippets(n int) {
 				key := fmt.Sprintf("%s|%d|%d", src, line, col)
 				if !c.seenErr[key] && len(src) < 80 {
 					c.seenErr[key] = true
-					c.errCases = append(c.errCases, fmt.Sprintf("CErr %s (%d) (%d) %s %s", c13runes(src), line, col, c13runes(e.Snippet), c13runes(strings.TrimPrefix(e.Error(), "m"))))
+					c.errCases = append(c.errCases, fmt.Sprintf("CErr %s (%d) (%d) %s %s", c13runes(src), line, col, c13runes(e.Snippet), c13runes(strings.TrimSuffix(strings.TrimPrefix(e.Error(), "m"), e.Snippet))))
 				}
 			}
 		}
@@ -1480,8 +1531,11 @@ func c13Replay(arg string) {
 	fmt.Printf("source:\n%s\n", k.Src)
 	switch k.Stream {
 	case "snippet":
-		got, found := file.NewSource(k.Src).Snippet(k.Line)
-		fmt.Printf("Snippet(%d) = %q, %v\n", k.Line, got, found)
+		got, found, pan := c13safeSnippet(file.NewSource(k.Src), k.Line)
+		fmt.Printf("Snippet(%d) = %q, %v (panic: %v)\n", k.Line, got, found, pan)
+		if pan != nil {
+			os.Exit(1)
+		}
 		return
 	case "run":
 		prog, err := c.compile(k.Src, k.Typed, k.Opt)
@@ -1530,7 +1584,7 @@ func runC13() {
 
 	rep.Distinct = len(c.distinct)
 	rep.Rule = "type-directed expression trees (depth 2-4) over the environment universe plus non-ASCII field names, every node kind, printed with known anchor tokens and laid out with random blanks, tabs, CR LF and line feeds, multi-byte runes in string literals and identifiers; exactly one fault injected per case: unknown identifier/function/field/method; type mismatch at one operator/builtin/index/argument/condition/closure; syntax fault at one token (stray closer, missing operand, invalid or malformed number, bad regexp, unrecognised character, unterminated string); run time: one failing operation (index, division, nil member, panicking function, dynamic type errors, closures) wrapped in up to three guards with never-evaluated failing decoys, compiled typed/untyped x optimized/unoptimized and run; plus Source.Snippet / Error.Bind on generated multi-line texts at every line and at columns 0, 1, middle, end, beyond. distinct_nontrivial counts distinct (stream, source, mode) whose source has several lines or a multi-byte rune or tab before the fault on its line"
-	max := 800
+	max := 700
 	if *tier == "thorough" {
 		max = 8000
 	}
@@ -1546,7 +1600,7 @@ func runC13() {
 	srcCases := append(sample(c.errCases, max), sample(c.snipCase, max/2)...)
 	saved := *shards
 	if *tier != "thorough" {
-		*shards = 8
+		*shards = 4
 	}
 	rep.writeShards("cases_c13", "From Coq Require Import ZArith List String.\nRequire Import X.Base.Value X.File.Source X.Corr.CorrC13.\nImport ListNotations.\nOpen Scope Z_scope.\nOpen Scope string_scope.\n", "c13case", "c13_mismatches", srcCases)
 	// lexer model on the same sources: token kinds, values, locations, lexer-error locations
@@ -1561,13 +1615,19 @@ func runC13() {
 		}
 	}
 	if *tier != "thorough" {
-		*shards = 4
+		*shards = 3
 	}
 	rep.writeShards("cases_c13_lex", "From Coq Require Import ZArith List String Floats.\nRequire Import X.Base.Value X.Syn.Tok X.Lex.Lexer X.Corr.CorrC12.\nImport ListNotations.\nOpen Scope Z_scope.\n", "c12case", "c12_mismatches", lexCases)
 	// parser model: trees with every node location, parser-error locations
 	var parseCases []string
 	for _, src := range sample(c.parseSrc, 110) {
-		if line, ok := c11CoqCase(src); ok {
+		line, ok, pan := c13safeParseCase(src)
+		if pan != nil {
+			rep.fail(Failure{Key: "C13-parser-panic", What: "parser.Parse panics", Input: map[string]string{"src": src}, Want: "a tree or a located error", Got: fmt.Sprint(pan),
+				Replay: c.replayArg(c13case{Stream: "syntax", Src: src, Typed: true, Opt: true})})
+			continue
+		}
+		if ok {
 			parseCases = append(parseCases, line)
 		}
 	}
